@@ -16,8 +16,11 @@ import yv
 H = yv.H
 
 
-def driver_exe():
-    return yv.yvbuild.link("sched", "c09", [os.path.join(H, "c09.c"), os.path.join(H, "yvsched.c"), os.path.join(H, "yvcommon.c")])
+def driver_exe(variant="sched"):
+    return yv.yvbuild.link(variant, "c09", [os.path.join(H, "c09.c"), os.path.join(H, "yvsched.c"), os.path.join(H, "yvcommon.c")])
+
+
+SMALL_SCENARIOS = ("tmm",)      # run on the build with scaled limits (8 matches per string), same source
 
 
 def tsan_exe():
@@ -25,9 +28,9 @@ def tsan_exe():
 
 
 class Driver:
-    def __init__(self):
+    def __init__(self, variant="sched"):
         os.makedirs(yv.TMP, exist_ok=True)
-        self.p = subprocess.Popen([driver_exe(), yv.TMP], stdin=subprocess.PIPE, stdout=subprocess.PIPE, stderr=subprocess.DEVNULL)
+        self.p = subprocess.Popen([driver_exe(variant), yv.TMP], stdin=subprocess.PIPE, stdout=subprocess.PIPE, stderr=subprocess.DEVNULL)
 
     def run(self, scenario, sched):
         self.p.stdin.write(("RUN %s %s\n" % (scenario, ",".join(map(str, sched)) or "-")).encode()); self.p.stdin.flush()
@@ -37,9 +40,10 @@ class Driver:
 _drv = {}
 def run_one(arg):
     scenario, sched = arg
-    d = _drv.get(os.getpid())
+    v = "schedsmall" if scenario in SMALL_SCENARIOS else "sched"
+    d = _drv.get((os.getpid(), v))
     if d is None:
-        d = Driver(); _drv[os.getpid()] = d
+        d = Driver(v); _drv[(os.getpid(), v)] = d
     return scenario, sched, d.run(scenario, sched)
 
 
@@ -103,7 +107,7 @@ def report(ck, scenario, what, sched, r):
     sig = "C09:%s" % what
     if sig in _reported: return
     # replay the schedule twice and demand identical observations before reporting
-    d = Driver()
+    d = Driver("schedsmall" if scenario in SMALL_SCENARIOS else "sched")
     a, b = d.run(scenario, sched), d.run(scenario, sched)
     d.p.kill()
     same = json.dumps(a) == json.dumps(b)
@@ -111,7 +115,7 @@ def report(ck, scenario, what, sched, r):
     if not same:
         ck.violation("C09:harness:nondeterministic-replay", dict(scenario=scenario, schedule=sched, first=a, second=b)); return
     ck.violation(sig, dict(scenario=scenario, schedule=sched, result={k: v for k, v in r.items() if k != "points"}, points=[[p[0], p[2], p[3]] for p in r.get("points", [])][:400],
-                           replay="echo 'RUN %s %s' | build/sched/c09 build/tmp" % (scenario, ",".join(map(str, sched)) or "-")))
+                           replay="echo 'RUN %s %s' | build/%s/c09 build/tmp" % (scenario, ",".join(map(str, sched)) or "-", "schedsmall" if scenario in SMALL_SCENARIOS else "sched")))
 
 
 def tsan_pass(ck, quick):
@@ -149,9 +153,10 @@ def main():
     quick = ck.tier == "quick"
     driver_exe()
     stats = dict(states=0, transitions=0, executions=0)
-    plan = [("two", 2), ("same-size", 2), ("abort", 2), ("error", 2), ("rules-level", 2), ("three", 1 if quick else 2)]
+    driver_exe("schedsmall")
+    plan = [("two", 2), ("same-size", 2), ("tmm", 2), ("abort", 2), ("error", 2), ("rules-level", 2), ("three", 1 if quick else 2)]
     if not quick:
-        plan = [("two", None), ("same-size", None), ("abort", 3), ("error", 3), ("rules-level", 3), ("three", 2)]
+        plan = [("two", None), ("same-size", None), ("tmm", None), ("abort", 3), ("error", 3), ("rules-level", 3), ("three", 2)]
     outs = {}
     for scen, bound in plan:
         outs[scen] = explore(ck, scen, bound, stats)
@@ -164,7 +169,7 @@ def main():
     d = Driver(); r = d.run("two", [0, 0, 0, 1, 1, 0]); d.p.kill()
     ck.sample(dict(scenario="two", schedule_prefix=[0, 0, 0, 1, 1, 0], points=[[p[0], p[2], p[3]] for p in r["points"]][:40], thread_traces=r["traces"]))
     ck.cov["rule"] = ("executions = schedules of the real driver (2-3 threads: create scanner, define external, scan, destroy; variants with callback abort / error, the "
-                      "rules-level entry point, and two different buffers of equal size whose module values are logged) enumerated by DFS with prefix replay; states = distinct hashes of (per-thread progress, mutex owner, usecount, installed / saved handler, "
+                      "rules-level entry point, two different buffers of equal size whose module values are logged, and - on the build with the match limit scaled to 8 - one scan that exceeds the limit and continues while the other needs every match of that string) enumerated by DFS with prefix replay; states = distinct hashes of (per-thread progress, mutex owner, usecount, installed / saved handler, "
                       "trace lengths) seen at scheduling points; transitions = distinct (state, thread chosen); preemption bounds per scenario in subspaces")
     ck.assumptions += ["the scheduler serialises threads: plain data races are only visible to the free-running TSan pass", "SIGBUS delivery itself is not scheduled (mapped-file faults run in the TSan/free pass only)"]
     ck.finish()
